@@ -122,5 +122,5 @@ def run(env: Env) -> Outcome:
     suite.live_runs(env, out, env.budget(120, 2400), [monitors.mon_c08], gen_kwargs={"family": "wait_retry"})
     # lineages that continue through ctx.send_event (from the handler itself, from a relay step downstream of it, from the
     # failing step before it fails) and fail again into the same handler
-    suite.live_runs(env, out, env.budget(120, 2400), [monitors.mon_c08], gen_kwargs={"family": "handler_send"})
+    suite.live_runs(env, out, env.budget(120, 1600), [monitors.mon_c08], gen_kwargs={"family": "handler_send"})
     return out
